@@ -141,14 +141,85 @@ def r04b(ctx, run):
     run.check(kinds == ["Data", "Float", "Integer", "Type", "Void"], sfn.site(iff[0]["ln"]), "all five result kinds are re-materialised: %s" % kinds, FCN, "kinds", sfn.file, iff[0]["ln"],
               "every ComptimeResult kind must be re-materialised; found %s" % kinds)
     if m:
-        tbl = {synq.last_seg(h): canon(b) for h, p, g, b, a in synq.match_table(m[0])}
-        run.check("iconst(final_ty.into_real_type().unwrap(), (*num as i64))" in tbl.get("Integer", ""), sfn.site(m[0]["ln"]), "Integer re-materialised with the block's own final type", FCN,
-                  "int-type", sfn.file, m[0]["ln"], "an integer result must be re-materialised as iconst of the block's final type")
-        fl = tbl.get("Float", "")
-        run.check("32 => Some(self.builder.ins().f32const((*num as f32)))" in fl and "64 => Some(self.builder.ins().f64const(*num))" in fl, sfn.site(m[0]["ln"]),
-                  "Float re-materialised at its own width", FCN, "float-type", sfn.file, m[0]["ln"], "a float result must be re-materialised as f32const/f64const by the block's width")
-        run.check("bytes.clone()" in tbl.get("Data", "") and "ty.align()" in tbl.get("Data", ""), sfn.site(m[0]["ln"]), "Data re-materialised as a global with the type's alignment", FCN, "data",
-                  sfn.file, m[0]["ln"], "a Data result must be emitted as global data of the captured bytes with the type's alignment")
+        # each arm evaluated with a symbolic result: what is emitted must be built from the recorded value at the block's own type
+        import c08
+        from absint import Obj, Term, Variant, Panic, CannotEstablish, _Return
+        arms = {synq.last_seg(h): (p, b, a) for h, p, g, b, a in synq.match_table(m[0])}
+
+        class RI(c08.I):
+            def __init__(self, nt):
+                c08.I.__init__(self)
+                self.nt = nt
+                self.funcs["MemFlags::trusted"] = lambda i, a: Term("trusted")
+                self.created = []
+
+            def eval(self, e, env):
+                if e.get("k") == "field" and canon(e) == "self.builder.func":
+                    return Term("func")
+                if e.get("k") in ("ref",) or (e.get("k") == "un" and e.get("op") in ("*", "&")):
+                    return self.eval(e["e"], env)
+                return c08.I.eval(self, e, env)
+
+            def default_method(self, recv, m_, args, e):
+                if m_ in ("bit_width", "bits"):
+                    return c08.I.default_method(self, recv, m_, args, e)
+                if isinstance(recv, Obj) and recv.name == "FinalPtr":
+                    return True if m_ == "is_pointer_type" else Term(m_, recv)
+                if recv is self.nt or (isinstance(recv, Obj) and recv.name == "NumberType"):
+                    if m_ in ("into_real_type", "into_number_type", "unwrap", "get_final_ty"):
+                        return recv if m_ != "into_real_type" else recv.fields["ty"]
+                    if m_ == "is_pointer_type":
+                        return False
+                if m_ == "get_name":
+                    return None
+                if m_ == "create_global_data":
+                    self.created.append(args)
+                    return Term("data_id")
+                if m_ in ("clone", "to_owned", "into", "unwrap"):
+                    return recv
+                if isinstance(recv, (Obj, Term)) and recv is not c08.BUILDER and m_ != "ins":
+                    return Term(m_, recv, *args)
+                return c08.I.default_method(self, recv, m_, args, e)
+
+        def run_arm(kind, binds, nt):
+            pat, body2, arm2 = arms[kind]
+            it = RI(nt)
+            env = {"self": Obj("self", builder=c08.BUILDER, module=Obj("module"), ptr_ty=Term("ptr_ty"), mod_dir=Term("mod_dir"), interner=Term("interner"), meta_tys=Term("meta_tys")),
+                   "final_ty": nt, "ty": Term("ty"), "no_load": False, "ctc": Term("ctc"), "expr": Term("expr")}
+            if not it.bind(pat, Variant("ComptimeResult::" + kind, binds), env):
+                raise CannotEstablish("the %s arm's pattern does not bind a %s result" % (kind, kind))
+            try:
+                return it.eval(body2, env), it
+            except _Return as r:
+                return r.v, it
+        num = Term("num")
+        for cl in ("I8", "I16", "I32", "I64"):
+            try:
+                t, _ = run_arm("Integer", {"num": num, "bit_width": int(cl[1:])}, c08.numty(cl, False, False))
+                good = isinstance(t, Term) and t.op == "iconst" and isinstance(t.args[0], Variant) and t.args[0].last == cl and t.args[1] in (num, Term("as_i64", num))
+                what = c08.fmt(t)[:80]
+            except (Panic, CannotEstablish) as c:
+                good, what = False, "cannot establish: %s" % getattr(c, "what", c)
+            run.check(good, sfn.site(m[0]["ln"]), "Integer result of a %s block re-materialised as %s" % (cl, what), FCN, "int-type:" + cl, sfn.file, m[0]["ln"],
+                      "an integer result of a block of type %s is re-materialised as %s; it must be iconst(%s, num): the block's own type and the recorded value" % (cl, what, cl))
+        for cl, want_op, want_arg in (("F32", "f32const", Term("as_f32", num)), ("F64", "f64const", num)):
+            try:
+                t, _ = run_arm("Float", {"num": num, "bit_width": int(cl[1:])}, c08.numty(cl, True, True))
+                good = isinstance(t, Term) and t.op == want_op and len(t.args) == 1 and t.args[0] in (want_arg, Term("as_f64", num) if cl == "F64" else want_arg)
+                what = c08.fmt(t)[:80]
+            except (Panic, CannotEstablish) as c:
+                good, what = False, "cannot establish: %s" % getattr(c, "what", c)
+            run.check(good, sfn.site(m[0]["ln"]), "Float result of a %s block re-materialised as %s" % (cl, what), FCN, "float-type:" + cl, sfn.file, m[0]["ln"],
+                      "a float result of a block of type %s is re-materialised as %s; it must be %s of the recorded value" % (cl, what, want_op))
+        try:
+            bytes_ = Term("bytes")
+            t, it = run_arm("Data", {"0": bytes_}, Obj("FinalPtr"))
+            good = len(it.created) == 1 and len(it.created[0]) >= 4 and it.created[0][2] == bytes_ and "align" in c08.fmt(it.created[0][3]) and "ty" in c08.fmt(it.created[0][3])
+            what = [c08.fmt(x)[:40] for x in (it.created[0] if it.created else [])]
+        except (Panic, CannotEstablish) as c:
+            good, what = False, "cannot establish: %s" % getattr(c, "what", c)
+        run.check(good, sfn.site(m[0]["ln"]), "Data result re-materialised as a data object of the recorded bytes with the type's alignment", FCN, "data", sfn.file, m[0]["ln"],
+                  "a Data result must be emitted as a data object holding exactly the recorded bytes, aligned like the block's type; found create_global_data%s" % (what,))
 
 
 def r04e(ctx, run):
